@@ -38,76 +38,64 @@ def check_python(report):
     fi = m.func("gapic.schema.api._ProtoBuilder._get_retry_and_timeout")
     p = fi.module.path
     fn = fi.node
-    # selector
-    sel = [n for n in ast.walk(fn) if isinstance(n, ast.Assign) and isinstance(n.value, ast.Dict) and isinstance(n.targets[0], ast.Name)
-           and all(isinstance(k, ast.Constant) for k in n.value.keys) and {k.value for k in n.value.keys} >= {"service"}]
-    r.need(len(sel) == 1, "selector = {'service': ..., 'method': ...}")
-    S = sel[0].targets[0].id
-    d = {k.value: v for k, v in zip(sel[0].value.keys, sel[0].value.values)}
+    # Decided on the decision table of the normal form (vlib/pynorm.py): helper methods, hoisted locals, loops vs next(...), .format vs
+    # f-strings, guard clauses ... all reduce to the same table of (conditions -> (retry, timeout)).
+    from ..pymodel import nreturn, nmatch, decision_leaves
+    r.need(len(fn.args.args) == 3, "_get_retry_and_timeout(self, service_address, meth_pb)")
+    SA, MP = fn.args.args[1].arg, fn.args.args[2].arg
+    e = nreturn(m, fi, keep={"_to_float", "RetryInfo"})
+    r.need(e is not None, "_get_retry_and_timeout", "the function does not reduce to a decision table; the rule cannot judge it")
+    leaves = decision_leaves(e)
+    r.need(all(isinstance(v, ast.Tuple) and len(v.elts) == 2 for _, v in leaves), "every outcome is a (retry, timeout) pair")
+    SEL = "{'service': f\"{'.'.join(" + SA + ".package)}.{" + SA + ".name}\", 'method': " + MP + ".name}"
+    MC = f"next((_c1 for _c1 in self.opts.retry.get('methodConfig', []) if {SEL} in _c1.get('name')), None)"
+    MC = ast.unparse(ast.parse(MC, mode="eval").body)
+    base = {("self.opts.retry", True), (MC, True)}
+    seen_mc = any((MC, True) in c for c, _ in leaves)
     r.instance("selector")
-    r.check(set(d) == {"service", "method"}, p, sel[0].lineno, f"selector keys {sorted(d)}", "selector must have exactly the keys service and method")
-    if set(d) == {"service", "method"}:
-        r.check(pmatch("_MP_.name", d["method"]) is not None and pmatch("_MP_.name", d["method"])["_MP_"] in [a.arg for a in fn.args.args],
-                p, sel[0].lineno, ast.unparse(d["method"]), "selector method must be the raw rpc name <meth_pb>.name")
-        s = d["service"]
-        ok = pmatch("'{package}.{service_name}'.format(package='.'.join(_SA_.package), service_name=_SA_.name)", s) is not None \
-            or pmatch("'{package}.{service_name}'.format(service_name=_SA_.name, package='.'.join(_SA_.package))", s) is not None
-        r.check(ok, p, sel[0].lineno, ast.unparse(s)[:120], "selector service must be '<package>.<service name>' of the service address")
-    # first match
-    node, b = find_match("next((_C_ for _C_ in self.opts.retry.get('methodConfig', []) if _S_ in _C_.get('name')), None)", fn, {"_S_": S})
+    r.check(seen_mc, p, fn.lineno, "selector / method-config lookup",
+            "the entry must be the FIRST methodConfig whose name list contains {'service': '<package>.<Service>', 'method': <rpc name>} of the "
+            "service address and method descriptor passed in")
     r.instance("match")
-    r.check(node is not None, p, fn.lineno, "method-config lookup", "must take the first methodConfig entry whose name list contains the selector")
-    mcs = [n for n in ast.walk(fn) if isinstance(n, ast.Assign) and n.value is node and isinstance(n.targets[0], ast.Name)]
-    r.need(node is None or len(mcs) == 1, "the matching entry is bound to a variable")
-    MC = mcs[0].targets[0].id if mcs else "mc"
-    # timeout
-    tnode, _ = find_match("self._to_float(_MC_['timeout'])", fn, {"_MC_": MC})
-    rets = [n for n in ast.walk(fn) if isinstance(n, ast.Return) and isinstance(n.value, ast.Tuple) and len(n.value.elts) == 2
-            and all(isinstance(e, ast.Name) for e in n.value.elts)]
-    r.need(rets, "return retry, timeout")
-    RV, TV = rets[-1].value.elts[0].id, rets[-1].value.elts[1].id
-    to = [n for n in ast.walk(fn) if isinstance(n, ast.Assign) and isinstance(n.targets[0], ast.Name) and n.targets[0].id == TV
-          and not (isinstance(n.value, ast.Constant) and n.value.value is None)]
+    r.check(all(ast.unparse(v) == "(None, None)" for c, v in leaves if not base <= set(c)), p, fn.lineno, "no config / no matching entry",
+            "without a retry config or a matching entry both defaults are None")
+    # timeout component
     r.instance("timeout")
-    r.check(len(to) == 1 and to[0].value is tnode, p, to[0].lineno if to else fn.lineno,
-            ast.unparse(to[0].value) if to else "<none>", "timeout must be self._to_float(<entry>['timeout'])")
-    # retry only under 'retryPolicy' in mc
-    ri = [c for c in calls(fn) if ast.unparse(c.func) == "wrappers.RetryInfo"]
-    r.need(len(ri) == 1, "wrappers.RetryInfo(...)")
-    k = {kk.arg: kk.value for kk in ri[0].keywords}
-    pol = [n for n in ast.walk(fn) if isinstance(n, ast.Assign) and pmatch("_MC_['retryPolicy']", n.value, {"_MC_": MC}) is not None]
-    R = pol[0].targets[0].id if pol and isinstance(pol[0].targets[0], ast.Name) else "r"
+    okt = True
+    for c, v in leaves:
+        if not base <= set(c):
+            continue
+        has = (f"{MC}.get('timeout')", True) in c
+        want = f"self._to_float({MC}['timeout'])" if has else "None"
+        okt = okt and ast.unparse(v.elts[1]) == want
+    r.check(okt and seen_mc, p, fn.lineno, "timeout component", "timeout must be self._to_float(<entry>['timeout']) when the entry has a timeout, else None")
+    # retry component
+    R = f"{MC}['retryPolicy']"
+    built = [(c, v.elts[0]) for c, v in leaves if base <= set(c) and (f"'retryPolicy' in {MC}", True) in c]
+    notbuilt = [(c, v.elts[0]) for c, v in leaves if not (base <= set(c) and (f"'retryPolicy' in {MC}", True) in c)]
+    r.check(bool(built) and all(isinstance(v, ast.Call) and ast.unparse(v.func).split(".")[-1] == "RetryInfo" for _, v in built)
+            and all(ast.unparse(v) == "None" for _, v in notbuilt), p, fn.lineno, "guard of RetryInfo construction",
+            "retry must be a RetryInfo exactly when the matching entry has a retryPolicy, else None")
+    k = {kk.arg: ast.unparse(kk.value) for kk in built[0][1].keywords} if built and isinstance(built[0][1], ast.Call) else {}
     for cfg_key, field in KEY_TABLE.items():
         r.instance(f"{cfg_key} -> {field}")
-        val_ = k.get(field)
-        src = ast.unparse(val_) if val_ is not None else "<missing>"
+        got = k.get(field, "<missing>")
         if field in ("initial_backoff", "max_backoff"):
-            ok = val_ is not None and pmatch(f"self._to_float(_R_.get('{cfg_key}', '0s'))", val_, {"_R_": R}) is not None
+            ok = got == f"self._to_float({R}.get('{cfg_key}', '0s'))"
             msg = f"RetryInfo.{field} must be self._to_float(retryPolicy.get('{cfg_key}', '0s'))"
         elif field == "retryable_exceptions":
-            ok = val_ is not None and pmatch(
-                "frozenset((exceptions.exception_class_for_grpc_status(getattr(grpc.StatusCode, _CODE_)) "
-                f"for _CODE_ in _R_.get('{cfg_key}', [])))", val_, {"_R_": R}) is not None
+            ok = got == f"frozenset((exceptions.exception_class_for_grpc_status(getattr(grpc.StatusCode, _c1)) for _c1 in {R}.get('{cfg_key}', [])))"
             msg = "status code names must map through grpc.StatusCode to api_core exception classes, for every listed code"
         else:
-            ok = val_ is not None and pmatch(f"_R_.get('{cfg_key}', _ANYD_)", val_, {"_R_": R}) is not None
+            ok = got.startswith(f"{R}.get('{cfg_key}', ")
             msg = f"RetryInfo.{field} must be read from retryPolicy['{cfg_key}']"
-        r.check(ok, p, ri[0].lineno, f"{field}={src[:110]}", msg)
-    guard = None
-    for n in ast.walk(fn):
-        if isinstance(n, ast.If) and any(c is ri[0] for c in ast.walk(n)):
-            guard = n
-    r.check(guard is not None and pmatch("'retryPolicy' in _MC_", guard.test, {"_MC_": MC}) is not None, p, ri[0].lineno,
-            "guard of RetryInfo construction", "retry must be built only when the entry has a retryPolicy")
-    rstore = [n for n in ast.walk(fn) if isinstance(n, ast.Assign) and n.value is ri[0]]
-    r.check(len(rstore) == 1 and isinstance(rstore[0].targets[0], ast.Name) and rstore[0].targets[0].id == RV, p, ri[0].lineno,
-            "RetryInfo bound to the returned retry variable", "the RetryInfo built from the entry must be what is returned")
+        r.check(ok, p, fn.lineno, f"{field}={got[-110:]}", msg)
     # _to_float
     tf = m.func("gapic.schema.api._ProtoBuilder._to_float")
-    trets = [n for n in ast.walk(tf.node) if isinstance(n, ast.Return)]
     r.instance("_to_float")
-    r.check(len(trets) == 1 and pmatch("int(_S_[:-1]) / 1000000000.0 if _S_.endswith('n') else float(_S_[:-1])", trets[0].value) is not None,
-            p, tf.node.lineno, ast.unparse(trets[0].value) if trets else "", "_to_float must give seconds: '<k>n' -> k/1e9, otherwise float(s[:-1])")
+    r.check(nmatch(m, "int(_S_[:-1]) / 1000000000.0 if _S_.endswith('n') else float(_S_[:-1])", tf) is not None,
+            p, tf.node.lineno, "_to_float", "_to_float must give seconds: '<k>n' -> k/1e9, otherwise float(s[:-1])")
+    RV, TV = "retry", "timeout"
     # hand-over to Method(...)
     r4 = report.rule("C09.4", "_get_methods hands (retry, timeout) to Method(retry=retry, timeout=timeout); Method defaults are None", floor=3)
     gm = m.func("gapic.schema.api._ProtoBuilder._get_methods")
